@@ -30,6 +30,7 @@ RULE = (
     "vs (-x, desc=True). Non-trivial (safety) = the run either fell back or its model was compared with a best "
     "feature accepting >= 5 targets; distinct = case parameters."
     " Half of the safety tables are written with all targets before all decoys or the reverse."
+    " A quarter of the safety tables carry the informative feature as 10**12 + milli-units (int64)."
 )
 ASSUMPTIONS = [
     "genuine targets come from the generator's ground truth, never from the file's label column",
@@ -83,6 +84,11 @@ def run_safety(case):
             tab = psm.psm_table(rng, n_spectra=(int(rng.integers(2500, 4000)) if strict else int(rng.integers(120, 220)) * case["folds"] * big), mult_max=2,
                                 key_cols=("ExpMass",), file_index=fi, label_enc=case["enc"],
                                 best_feature_desc=case["best_desc"], sep_strength=3.0, n_info=1, n_noise=3)
+            # a quarter of the tables carry their informative feature as a large integer (fixed-point score with a constant
+            # offset): exact in float64 and in int64, but neighbours coincide in float32
+            if rng.random() < 0.25:
+                tab["df"]["info0"] = (10**12 + np.round(tab["df"]["info0"].values * 1000)).astype(np.int64)
+                res.count("tables_with_large_integer_feature")
             # row order of the file: shuffled, or all targets before all decoys (concatenated target and decoy search
             # results) or the reverse - tied scores then sit in label order
             order = str(rng.choice(["shuffled", "shuffled", "targets_first", "decoys_first"]))
